@@ -31,11 +31,18 @@ type c04Step struct {
 	I    int    // member index (mod current size)
 	K    int    // amount for inc/dec
 	Next []beSpec
+	// gslb paths
+	IP    int    // pick: client address index (decides the assigned sub-cluster)
+	Retry bool   // pick: the request already used up its in-sub-cluster retries (RetryTime = RetryMax+1)
+	GB    gbSpec // conf: new GslbBasic written to cluster_conf.data and reloaded (server data conf reload)
 }
 
 type c04Plan struct {
-	Path      string // "rr-smooth", "rr-simple", "gslb"
-	SlowStart int    // slow start time in seconds, 0 = off
+	Path      string         // "rr-smooth", "rr-simple", "gslb" (one sub-cluster), "gslb-cross" (2-3 sub-clusters, cross retry)
+	SlowStart int            // slow start time in seconds, 0 = off
+	GB        gbSpec         // gslb paths: initial GslbBasic
+	NSub      int            // gslb-cross: number of sub-clusters
+	SubOf     map[string]int // gslb-cross: "addr:port" -> sub-cluster index
 	Members   []beSpec
 	Down      []string
 	Conns     []int
@@ -56,14 +63,47 @@ func genC04Weight(rt *rapid.T, label string) int {
 
 func genC04Plan(rt *rapid.T) c04Plan {
 	var p c04Plan
-	p.Path = rapid.SampledFrom([]string{"rr-smooth", "rr-simple", "gslb"}).Draw(rt, "path")
+	p.Path = rapid.SampledFrom([]string{"rr-smooth", "rr-simple", "gslb", "gslb", "gslb-cross", "gslb-cross"}).Draw(rt, "path")
 	n := rapid.SampledFrom([]int{1, 2, 3, 3, 4, 4, 5, 5, 6, 6, 7, 8}).Draw(rt, "n")
+	p.NSub = 1
+	if p.Path == "gslb-cross" {
+		p.NSub = rapid.IntRange(2, 3).Draw(rt, "nsub")
+		if n < 2*p.NSub {
+			n = 2 * p.NSub
+		}
+	}
+	gslb := strings.HasPrefix(p.Path, "gslb")
+	// GslbBasic as an operator writes it; the values include bfe's built-in
+	// defaults (RetryMax 3, CrossRetry 1, WRR) and are changed later by "conf" steps
+	genGBasic := func(label string) gbSpec {
+		gb := gbSpec{Strategy: stratIPOnly,
+			RetryMax:   rapid.SampledFrom([]int{0, 1, 2, 3, 3}).Draw(rt, label+"retryMax"),
+			CrossRetry: rapid.SampledFrom([]int{0, 1, 1}).Draw(rt, label+"crossRetry"),
+			Mode:       rapid.SampledFrom([]string{"WLC", "WLC", "WLC", "WRR"}).Draw(rt, label+"mode")}
+		if p.Path == "gslb-cross" && gb.CrossRetry == 0 {
+			gb.CrossRetry = 1 + rapid.IntRange(0, 1).Draw(rt, label+"cr")
+		}
+		return gb
+	}
+	if gslb {
+		p.GB = genGBasic("gb.")
+	}
 	p.Members = genBackends(rt, n, "m", -1)
 	connRegime := rapid.SampledFrom([]string{"zero", "small", "small", "wide", "proportional"}).Draw(rt, "connRegime")
 	for i := range p.Members {
 		p.Members[i].Weight = genC04Weight(rt, fmt.Sprintf("w%d", i))
-		if i == 0 && p.Members[i].Weight <= 0 {
+		if i < p.NSub && p.Members[i].Weight <= 0 {
 			p.Members[i].Weight = 3
+		}
+		if p.Path == "gslb-cross" {
+			if p.SubOf == nil {
+				p.SubOf = map[string]int{}
+			}
+			if i < p.NSub {
+				p.SubOf[p.Members[i].key()] = i
+			} else {
+				p.SubOf[p.Members[i].key()] = rapid.IntRange(0, p.NSub-1).Draw(rt, fmt.Sprintf("sub%d", i))
+			}
 		}
 		if rapid.IntRange(0, 11).Draw(rt, fmt.Sprintf("down%d", i)) == 0 {
 			p.Down = append(p.Down, p.Members[i].key())
@@ -92,12 +132,28 @@ func genC04Plan(rt *rapid.T) c04Plan {
 	if p.SlowStart > 0 {
 		ops = append(ops, "pick-wait", "flip")
 	}
+	if gslb {
+		p.GB.SlowStart = p.SlowStart
+		ops = append(ops, "conf")
+	}
+	if p.Path == "gslb-cross" {
+		ops = append(ops, "flip", "flip", "pick-hold")
+	}
 	ns := rapid.IntRange(5, 25).Draw(rt, "nsteps")
 	members := p.Members
 	for s := 0; s < ns; s++ {
 		st := c04Step{Op: rapid.SampledFrom(ops).Draw(rt, fmt.Sprintf("op%d", s))}
 		st.I = rapid.IntRange(0, 7).Draw(rt, fmt.Sprintf("i%d", s))
+		if gslb && strings.HasPrefix(st.Op, "pick") {
+			st.IP = rapid.IntRange(0, 15).Draw(rt, fmt.Sprintf("ip%d", s))
+			if p.Path == "gslb-cross" {
+				st.Retry = rapid.IntRange(0, 2).Draw(rt, fmt.Sprintf("retry%d", s)) == 0
+			}
+		}
 		switch st.Op {
+		case "conf":
+			st.GB = genGBasic(fmt.Sprintf("conf%d.", s))
+			st.GB.SlowStart = p.SlowStart
 		case "pick-wait":
 			st.K = rapid.IntRange(1, 3).Draw(rt, fmt.Sprintf("ms%d", s))
 		case "inc", "dec":
@@ -121,6 +177,9 @@ func genC04Plan(rt *rapid.T) c04Plan {
 					if !used[c.key()] {
 						c.Weight = genC04Weight(rt, fmt.Sprintf("addw%d", s))
 						next = append(next, c)
+						if _, ok := p.SubOf[c.key()]; p.Path == "gslb-cross" && !ok {
+							p.SubOf[c.key()] = rapid.IntRange(0, p.NSub-1).Draw(rt, fmt.Sprintf("addsub%d", s))
+						}
 						break
 					}
 				}
@@ -135,36 +194,62 @@ func genC04Plan(rt *rapid.T) c04Plan {
 
 func (p c04Plan) fingerprint() string {
 	var sb strings.Builder
-	fmt.Fprintf(&sb, "%s|ss%d|%s|%v|%v", p.Path, p.SlowStart, fmtBackends(p.Members), p.Down, p.Conns)
+	fmt.Fprintf(&sb, "%s|ss%d|%s|%v|%v|%+v|%v", p.Path, p.SlowStart, fmtBackends(p.Members), p.Down, p.Conns, p.GB, p.SubOf)
 	for _, s := range p.Steps {
-		fmt.Fprintf(&sb, "|%s %d %d %s", s.Op, s.I, s.K, fmtBackends(s.Next))
+		fmt.Fprintf(&sb, "|%s %d %d %s %d %v %+v", s.Op, s.I, s.K, fmtBackends(s.Next), s.IP, s.Retry, s.GB)
 	}
 	return sb.String()
 }
 
-const c04Sub = "sub.wlc"
+func c04SubName(i int) string { return fmt.Sprintf("sub.wlc%d", i) }
 
 type c04Bal struct {
-	path string
-	brr  *bal_slb.BalanceRR
-	r    *rig
-	req  *bfe_basic.Request
+	path     string
+	brr      *bal_slb.BalanceRR
+	r        *rig
+	nsub     int
+	subOf    map[string]int
+	reqs     map[int]*bfe_basic.Request
+	retryMax int // current RetryMax of the cluster (gslb paths)
 }
 
-func (b *c04Bal) pick() (*backend.BfeBackend, error) {
+func (b *c04Bal) subs(ms []beSpec) []subSpec {
+	out := make([]subSpec, b.nsub)
+	for i := range out {
+		out[i] = subSpec{Name: c04SubName(i), Weight: 50}
+	}
+	for _, m := range ms {
+		i := b.subOf[m.key()]
+		out[i].Backends = append(out[i].Backends, m)
+	}
+	return out
+}
+
+func (b *c04Bal) pick(st c04Step) (*backend.BfeBackend, error) {
 	switch b.path {
 	case "rr-smooth":
 		return b.brr.Balance(bal_slb.WlcSmooth, nil)
 	case "rr-simple":
 		return b.brr.Balance(bal_slb.WlcSimple, nil)
 	}
-	b.req.RetryTime = 0
-	return b.r.bal.Balance(b.req)
+	req := b.reqs[st.IP]
+	if req == nil {
+		var err error
+		if req, err = mkReq(reqSpec{URI: "/", IP: fmt.Sprintf("10.1.1.%d", st.IP), IP4Form: true}); err != nil {
+			panic(err)
+		}
+		b.reqs[st.IP] = req
+	}
+	req.RetryTime = 0
+	if st.Retry {
+		req.RetryTime = b.retryMax + 1
+	}
+	return b.r.bal.Balance(req)
 }
 
 func (b *c04Bal) update(ms []beSpec) error {
-	if b.path == "gslb" {
-		return b.r.reload([]subSpec{{Name: c04Sub, Weight: 100, Backends: ms}})
+	if b.r != nil {
+		return b.r.reload(b.subs(ms))
 	}
 	conf, err := loadSub(ms)
 	if err != nil {
@@ -174,33 +259,42 @@ func (b *c04Bal) update(ms []beSpec) error {
 	return nil
 }
 
+func (b *c04Bal) lists() []*bal_slb.BalanceRR {
+	if b.r == nil {
+		return []*bal_slb.BalanceRR{b.brr}
+	}
+	var out []*bal_slb.BalanceRR
+	for i := 0; i < b.r.bal.SubClusterNum(); i++ {
+		_, x := b.r.bal.VerifSubClusterAt(i)
+		out = append(out, x)
+	}
+	return out
+}
+
 // effective returns addr:port -> weight the balancer currently holds (x100 scale).
 func (b *c04Bal) effective() map[string]int {
-	brr := b.brr
-	if b.path == "gslb" {
-		for i := 0; i < b.r.bal.SubClusterNum(); i++ {
-			if n, x := b.r.bal.VerifSubClusterAt(i); n == c04Sub {
-				brr = x
-			}
-		}
-	}
 	out := map[string]int{}
-	for j := 0; j < brr.Len(); j++ {
-		w, _ := brr.VerifCreditAt(j)
-		out[brr.VerifBackendAt(j).AddrInfo] = w
+	for _, brr := range b.lists() {
+		for j := 0; j < brr.Len(); j++ {
+			w, _ := brr.VerifCreditAt(j)
+			out[brr.VerifBackendAt(j).AddrInfo] = w
+		}
 	}
 	return out
 }
 
 func (b *c04Bal) handles() map[string][]*backend.BfeBackend {
-	if b.path == "gslb" {
-		return b.r.handles()[c04Sub]
+	out := map[string][]*backend.BfeBackend{}
+	for _, brr := range b.lists() {
+		for k, v := range rrHandles(brr) {
+			out[k] = append(out[k], v...)
+		}
 	}
-	return rrHandles(b.brr)
+	return out
 }
 
 func TestC04(t *testing.T) {
-	rec := ev.New("C04", "1..8 backends (weights 1..50, small 1..4, 0 and negative mixed in; some unavailable) with initial active-connection counts (zero / 0..6 / 0..200 / exactly proportional to weight) set via IncConnNum; WlcSmooth and WlcSimple on BalanceRR and BalanceMode WLC through BalanceGslb/BalTable; 5..25 steps of pick / pick-and-hold (IncConnNum on the result, as reverseproxy does) / inc / dec / availability flip / reload with new weights or members. every pick is one evaluation. non-trivial: >=2 eligible backends whose conn/weight ratios are not all equal; distinct by configuration+counters+step script prefix")
+	rec := ev.New("C04", "1..8 backends (weights 1..50, small 1..4, 0 and negative mixed in; some unavailable) with initial active-connection counts (zero / 0..6 / 0..200 / exactly proportional to weight) set via IncConnNum; WlcSmooth and WlcSimple on BalanceRR, and BalanceGslb/BalTable with one sub-cluster or 2-3 sub-clusters with cross retry (GslbBasic RetryMax/CrossRetry/BalanceMode generated incl. bfe's defaults, changed later by cluster_conf reloads); slow start off or 1-2 s; 5..25 steps of pick (client address and used-up retries generated) / pick-and-hold (IncConnNum on the result, as reverseproxy does) / inc / dec / availability flip / reload with new weights or members. every pick is one evaluation. non-trivial: >=2 eligible backends whose conn/weight ratios are not all equal; distinct by configuration+counters+step script prefix")
 	if p := os.Getenv("VERIF_REPLAY_JSON"); p != "" {
 		var doc struct {
 			Witness struct {
@@ -218,19 +312,19 @@ func TestC04(t *testing.T) {
 }
 
 func c04Run(tb ev.TB, rec *ev.Rec, p c04Plan) {
-	bal := &c04Bal{path: p.Path}
-	if p.Path == "gslb" {
-		r, err := newRig([]subSpec{{Name: c04Sub, Weight: 100, Backends: p.Members}}, gbSpec{RetryMax: 2, Strategy: stratIPOnly, Mode: "WLC", SlowStart: p.SlowStart})
+	bal := &c04Bal{path: p.Path, nsub: p.NSub, subOf: p.SubOf, reqs: map[int]*bfe_basic.Request{}, retryMax: p.GB.RetryMax}
+	if bal.nsub < 1 {
+		bal.nsub = 1
+	}
+	mode := "WLC" // configured balance mode; the property speaks about WLC mode only
+	if strings.HasPrefix(p.Path, "gslb") {
+		r, err := newRig(bal.subs(p.Members), p.GB)
 		if err != nil {
 			rec.Excluded("loader-rejected")
 			return
 		}
 		bal.r = r
-		req, err := mkReq(reqSpec{URI: "/", IP: "9.8.7.6"})
-		if err != nil {
-			tb.Fatalf("harness: %v", err)
-		}
-		bal.req = req
+		mode = strings.ToUpper(p.GB.Mode)
 	} else {
 		conf, err := loadSub(p.Members)
 		if err != nil {
@@ -267,10 +361,10 @@ func c04Run(tb ev.TB, rec *ev.Rec, p c04Plan) {
 		return map[string]any{"plan": p, "state_at_failure": st, "trace": trace}
 	}
 	var fpb strings.Builder
-	fmt.Fprintf(&fpb, "%s|ss%d|%s|%v|%v", p.Path, p.SlowStart, fmtBackends(p.Members), p.Down, p.Conns)
+	fmt.Fprintf(&fpb, "%s|ss%d|%s|%v|%v|%+v|%v", p.Path, p.SlowStart, fmtBackends(p.Members), p.Down, p.Conns, p.GB, p.SubOf)
 
 	for _, st := range p.Steps {
-		fmt.Fprintf(&fpb, "|%s %d %d %s", st.Op, st.I, st.K, fmtBackends(st.Next))
+		fmt.Fprintf(&fpb, "|%s %d %d %s %d %v %+v", st.Op, st.I, st.K, fmtBackends(st.Next), st.IP, st.Retry, st.GB)
 		switch st.Op {
 		case "inc", "dec":
 			m := members[st.I%len(members)]
@@ -302,6 +396,16 @@ func c04Run(tb ev.TB, rec *ev.Rec, p c04Plan) {
 			}
 			hs[m.key()][0].SetAvail(avail[m.key()])
 			trace = append(trace, fmt.Sprintf("avail %s=%v", m.key(), avail[m.key()]))
+		case "conf":
+			if bal.r == nil {
+				continue
+			}
+			if err := bal.r.reloadClusterConf(st.GB); err != nil {
+				tb.Fatalf("harness: cluster_conf reload: %v", err)
+			}
+			mode = strings.ToUpper(st.GB.Mode)
+			bal.retryMax = st.GB.RetryMax
+			trace = append(trace, fmt.Sprintf("cluster_conf reload %+v", st.GB))
 		case "reload":
 			if err := bal.update(st.Next); err != nil {
 				rec.Excluded("reload-rejected")
@@ -320,7 +424,7 @@ func c04Run(tb ev.TB, rec *ev.Rec, p c04Plan) {
 			hs = bal.handles()
 			trace = append(trace, "reload "+fmtBackends(st.Next))
 		case "pick", "pick-hold", "pick-wait":
-			be, err := bal.pick()
+			be, err := bal.pick(st)
 			// weights the balancer used for this selection (slow start changes them
 			// with the wall clock; nothing else touches them until the next call)
 			eff := bal.effective()
@@ -348,11 +452,61 @@ func c04Run(tb ev.TB, rec *ev.Rec, p c04Plan) {
 					rampingElig = true
 				}
 			}
+			wait := func() {
+				if st.Op == "pick-wait" {
+					time.Sleep(time.Duration(st.K) * time.Millisecond)
+				}
+			}
+			// the backends the selection was made among: the whole list, or (several
+			// sub-clusters) the sub-cluster the returned backend belongs to - first
+			// choice or cross-sub-cluster retry alike
+			grp := members
+			if p.Path == "gslb-cross" {
+				if be == nil || err != nil {
+					// whether an error is legitimate here is C03's question
+					rec.Case(fpb.String(), false, "path="+p.Path, "cross:error-no-claim")
+					trace = append(trace, fmt.Sprintf("%s(ip=%d,retry=%v) -> error %v", st.Op, st.IP, st.Retry, err))
+					wait()
+					continue
+				}
+				g, ok := p.SubOf[be.AddrInfo]
+				if !ok || be.SubCluster != c04SubName(g) {
+					rec.Fail(tb, "backend-subcluster-mismatch", witness(), "returned backend %s claims sub-cluster %q, configured in %q", be.AddrInfo, be.SubCluster, c04SubName(g))
+					return
+				}
+				grp = nil
+				for _, m := range members {
+					if p.SubOf[m.key()] == g {
+						grp = append(grp, m)
+					}
+				}
+			}
+			if mode != "WLC" {
+				// the cluster is configured for WRR at the moment: nothing is claimed
+				// about connections; the result must still be eligible
+				rec.Case(fpb.String(), false, "path="+p.Path, "mode=WRR:no-claim")
+				if be != nil && err == nil {
+					id := be.AddrInfo
+					if !avail[id] || eff[id] <= 0 {
+						w := witness()
+						w["picked"] = id
+						rec.Fail(tb, "picked-ineligible", w, "picked %s which is unavailable or has effective weight %d", id, eff[id])
+						return
+					}
+					if st.Op == "pick-hold" {
+						be.IncConnNum()
+						conn[id]++
+					}
+				}
+				trace = append(trace, fmt.Sprintf("%s (WRR mode)", st.Op))
+				wait()
+				continue
+			}
 			// argmin over exact rationals conn / effective weight
 			var min *big.Rat
 			nElig := 0
 			allEqual := true
-			for _, m := range members {
+			for _, m := range grp {
 				if !avail[m.key()] || eff[m.key()] <= 0 {
 					continue
 				}
@@ -370,12 +524,15 @@ func c04Run(tb ev.TB, rec *ev.Rec, p c04Plan) {
 				}
 			}
 			argmin := map[string]bool{}
-			for _, m := range members {
+			for _, m := range grp {
 				if min != nil && avail[m.key()] && eff[m.key()] > 0 && big.NewRat(int64(conn[m.key()]), int64(eff[m.key()])).Cmp(min) == 0 {
 					argmin[m.key()] = true
 				}
 			}
 			classes := []string{"path=" + p.Path}
+			if st.Retry {
+				classes = append(classes, "cross:retry-exhausted-in-sub-cluster")
+			}
 			if p.SlowStart > 0 {
 				classes = append(classes, "slow-start")
 			}
@@ -401,9 +558,7 @@ func c04Run(tb ev.TB, rec *ev.Rec, p c04Plan) {
 					return
 				}
 				trace = append(trace, "pick -> error (none eligible)")
-				if st.Op == "pick-wait" {
-					time.Sleep(time.Duration(st.K) * time.Millisecond)
-				}
+				wait()
 				continue
 			}
 			if err != nil || be == nil {
@@ -427,6 +582,9 @@ func c04Run(tb ev.TB, rec *ev.Rec, p c04Plan) {
 						}
 					}
 				}
+				if key == "not-a-minimiser" && p.Path == "gslb-cross" {
+					w["subcluster"] = be.SubCluster
+				}
 				rec.Fail(tb, key, w, "picked %s (conn=%d) but the minimum conn/weight %s is attained only by %v", id, conn[id], min.String(), argmin)
 				return
 			}
@@ -434,10 +592,8 @@ func c04Run(tb ev.TB, rec *ev.Rec, p c04Plan) {
 				be.IncConnNum()
 				conn[id]++
 			}
-			if st.Op == "pick-wait" {
-				time.Sleep(time.Duration(st.K) * time.Millisecond)
-			}
-			trace = append(trace, fmt.Sprintf("%s -> %s", st.Op, id))
+			wait()
+			trace = append(trace, fmt.Sprintf("%s(ip=%d,retry=%v) -> %s", st.Op, st.IP, st.Retry, id))
 			if len(trace) > 40 {
 				trace = trace[len(trace)-40:]
 			}
